@@ -1,4 +1,5 @@
 import Gnmi.Model.ManagerLTS
+import Gnmi.Model.ManagerConn
 /-!
 # Executable semantics of the manager LTS: the sequential schedule of a scripted scenario
 
@@ -8,7 +9,9 @@ is cancelled, and the `select` in `retryMonitor` takes the `ctx.Done()` arm when
 `applyMove` is a functional version of `Step`.  Both are *sound* for the relation
 (`monNext_sound`, `applyMove_sound`), and the scenario interpreter only moves through
 `RCfg.move`, which carries the `Reach` proof along: every trace the driver predicts is a trace of
-the LTS the theorems of `Props/C13.lean` speak about (`runScenario` returns an `RCfg`).
+the LTS the theorems of `Props/C13.lean` speak about (`runScenario` returns an `RCfg`).  It also
+carries the connection ledger of `Model/ManagerConn.lean` (`GReach`): the acquisition counts the
+driver predicts are those the theorems of `Props/C16Mgr.lean` speak about.
 
 Core Lean only (this file is linked into the driver executable).
 -/
@@ -110,6 +113,7 @@ theorem monNext_sound {next : Attempt} {I I' : Inst} {l : MLabel}
 /-- Which transition to take (the schedule). -/
 inductive Move
   | mon (i : Nat)
+  | monDialOk (i : Nat)   -- `Connection` returns `err == nil` whatever the state of its context
   | add (n : Name) (rt : Bool)
   | addInvalid (n : Name)
   | remove (n : Name)
@@ -126,6 +130,10 @@ def applyMove (env : Name → Nat → Attempt) (c : Cfg) : Move → Option (Labe
       match monNext (env (c.insts i).name (c.nextAtt (c.insts i).name)) (c.insts i) with
       | some (l, I') => some (l.toLabel (c.insts i).name, c.applyMon i l I')
       | none => none
+  | .monDialOk i =>
+      if (c.insts i).pc = .dial ∧ (c.insts i).cur ≠ .dialFail then
+        some (.tau, c.applyMon i .tau { c.insts i with pc := .open_ })
+      else none
   | .add n rt =>
       match c.lock, c.targets n with
       | none, none =>
@@ -184,6 +192,11 @@ theorem applyMove_sound {env : Name → Nat → Attempt} {c c' : Cfg} {m : Move}
     split at h
     · next l' I' hm => cases h; exact .mon i (monNext_sound hm)
     · cases h
+  | monDialOk i =>
+    simp only [applyMove] at h
+    split at h
+    · next hc => cases h; exact .mon i (.dialOk hc.1 hc.2)
+    · cases h
   | add n rt =>
     simp only [applyMove] at h
     split at h
@@ -234,19 +247,23 @@ theorem applyMove_sound {env : Name → Nat → Attempt} {c c' : Cfg} {m : Move}
 structure RCfg (env : Name → Nat → Attempt) where
   c : Cfg
   reach : Reach env c
+  g : Ghost := Ghost.init                 -- the connection ledger (`Model/ManagerConn.lean`)
+  greach : GReach env c g
 
-def RCfg.init (env : Name → Nat → Attempt) : RCfg env := ⟨Cfg.init, .init⟩
+def RCfg.init (env : Name → Nat → Attempt) : RCfg env := ⟨Cfg.init, .init, Ghost.init, .init⟩
 
 def RCfg.move {env : Name → Nat → Attempt} (r : RCfg env) (m : Move) : Option (Label × RCfg env) :=
   match h : applyMove env r.c m with
-  | some (l, c') => some (l, ⟨c', .step r.reach (applyMove_sound h)⟩)
+  | some (l, c') =>
+      some (l, ⟨c', .step r.reach (applyMove_sound h), ghostNext r.c c' r.g, .step r.greach (applyMove_sound h)⟩)
   | none => none
 
 /-! ## Scenarios (the op lines of the `mg` correspondence) -/
 
 inductive InjAt
   | lookup          -- while the attempt is in the credentials lookup (`Pc.gmeta`)
-  | dial            -- while it is in `Connection`
+  | dial            -- while it is in `Connection` (which then fails with the cancellation)
+  | dialOk          -- while it is in `Connection`, and the dial succeeds all the same
   | backoff         -- right after the attempt
   | msg (j : Nat)   -- in `Recv`, after `j` messages were processed
   deriving DecidableEq, Repr
@@ -281,6 +298,7 @@ structure RunSt (env : Name → Nat → Attempt) where
   removeAt : Option Nat := none    -- length of the trace when `Remove` was called
   readd : Bool := false
   stuck : Bool := false
+  forceDial : Bool := false        -- the pending `Connection` call returns `err == nil` (injection `dialOk`)
 
 def Label.ok : Label → Bool
   | .add _ b => b
@@ -317,9 +335,16 @@ def dueInj (script : List SAttempt) (nextAtt : Nat) (pc : Pc) (injDone : Bool) :
         match inj.pos, pc with
         | .lookup, .gmeta => some inj
         | .dial, .dial => some inj
+        | .dialOk, .dial => some inj
         | .backoff, .timer => some inj
         | .msg j, .recv j' _ => if j = j' then some inj else none
         | _, _ => none
+
+/-- The monitor goroutine's next step: the sequential schedule, except that the `Connection` call
+during which a `dialOk` injection was made succeeds. -/
+def RunSt.monMove {env : Name → Nat → Attempt} (st : RunSt env) (i : Nat) : Option (Label × RCfg env) × Bool :=
+  if st.forceDial && decide ((st.r.c.insts i).pc = .dial) then (st.r.move (.monDialOk i), false)
+  else (st.r.move (.mon i), st.forceDial)
 
 /-- Drive target `name` until it has been removed (or fuel runs out / nothing can move). -/
 def drive {env : Name → Nat → Attempt} (name : Name) (script : List SAttempt) :
@@ -338,28 +363,29 @@ def drive {env : Name → Nat → Attempt} (name : Name) (script : List SAttempt
           let st' := st.api .removeEnd
           st'
         else
-          match st.r.move (.mon i) with
-          | some (_, r') => drive name script fuel { st with r := r' }
-          | none => { st with stuck := true }
+          match st.monMove i with
+          | (some (_, r'), fd) => drive name script fuel { st with r := r', forceDial := fd }
+          | (none, _) => { st with stuck := true }
       else
         match dueInj script (c.nextAtt name) I.pc st.injDone with
         | some inj =>
           if inj.remove then
-            let st1 := { st with injDone := true, removeAt := some (c.trace name).length, readd := inj.readd }
+            let st1 := { st with injDone := true, removeAt := some (c.trace name).length, readd := inj.readd,
+                                 forceDial := decide (inj.pos = InjAt.dialOk) }
             match st1.r.move (.remove name) with
             | some (_, r') => drive name script fuel { st1 with r := r' }
             | none => { st1 with stuck := true }
           else
-            let st1 := ({ st with injDone := true }.api (.reconnect name)).tau .byPtr
+            let st1 := ({ st with injDone := true, forceDial := decide (inj.pos = InjAt.dialOk) }.api (.reconnect name)).tau .byPtr
             drive name script fuel st1
         | none =>
-          match st.r.move (.mon i) with
-          | some (l, r') =>
+          match st.monMove i with
+          | (some (l, r'), fd) =>
             -- a new attempt: its injection is still to come
             let fresh := r'.c.nextAtt name != c.nextAtt name
             let _ := l
-            drive name script fuel { st with r := r', injDone := if fresh then false else st.injDone }
-          | none =>
+            drive name script fuel { st with r := r', injDone := if fresh then false else st.injDone, forceDial := fd }
+          | (none, _) =>
             -- blocked in Recv on a silent stream: only the receive timeout helps
             if I.rt && I.tmoWaiting then
               drive name script fuel (((st.tau (.tmo i)).tau .byName).tau .byPtr)
@@ -372,6 +398,9 @@ structure TargetObs where
   rets : List Bool
   racy : Bool
   stuck : Bool
+  acq : Nat := 0         -- connections acquired for the target (all its incarnations)
+  leak : Nat := 0        -- … of which not released when the scenario is over
+  twice : Nat := 0       -- … of which released more than once
   deriving Repr
 
 def isProbe (set : List Char) (f : Char) : Bool := set.contains f
@@ -407,7 +436,9 @@ def runTarget {env : Name → Nat → Attempt} (r : RCfg env) (name : Name) (t :
     | some k => k
     | none => tr.length
   (st3.r, { pre := tr.take cut, drain := tr.drop cut, rets := st3.rets, racy := t.racy,
-            stuck := st3.stuck || st3.removeAt.isNone })
+            stuck := st3.stuck || st3.removeAt.isNone,
+            acq := st3.r.c.sumFor st3.r.g acquired name, leak := st3.r.c.sumFor st3.r.g held name,
+            twice := st3.r.c.sumFor st3.r.g twice name })
 
 /-- The environment script of a scenario: target `t<k>` gets the attempts of the `k`-th spec;
 beyond the script every attempt fails to dial (never reached: the scenario removes the target). -/
